@@ -84,3 +84,50 @@ Proof.
   destruct (negb (is_nil (map snd tdefs)) && defs_okb fo C (map snd tdefs)) eqn:E4; cbn [negb] in H; [|discriminate H].
   unfold text_domainb. rewrite E1, E2, E3. cbn [andb]. exact E4.
 Qed.
+
+(** ---------------------------------------------------------------- two strings, one molecule: the isomorphism theorem
+    (TextIso.text_returned_iso) for any base texts the reader reads, and ONE executable test for its hypotheses *)
+From CGV Require Import Resolve.CopyProofs Compose.OrderIndep Compose.Transcript Compose.CutIsoCar Compose.ReturnedIso Compose.AnyCut Compose.TextIso.
+
+Definition iso_domainb (fo : float_oracle) (C1 : cut) (body1 : pystr) (defs1 : list fdef) (C2 : cut) (body2 : pystr) (defs2 : list fdef) : bool :=
+  text_domainb fo C1 body1 defs1 && text_domainb fo C2 body2 defs2 && same_molb C1 C2.
+
+Theorem iso_domain_sound fo C1 body1 defs1 C2 body2 defs2 : iso_domainb fo C1 body1 defs1 C2 body2 defs2 = true ->
+  exists st1 fd1 st2 fd2,
+    from_text fo (cut_string_of body1 defs1) = Ok st1 /\ st_dicts st1 = [fd1] /\
+    from_text fo (cut_string_of body2 defs2) = Ok st2 /\ st_dicts st2 = [fd2] /\
+    forall car1 car2 fo1 fo2 ms1 ms2,
+      resolve_step_full (st_legacy st1) (is_all_atom st1) fd1 (st_mol st1) (Some car1) = Ok fo1 ->
+      resolve_step_full (st_legacy st2) (is_all_atom st2) fd2 (st_mol st2) (Some car2) = Ok fo2 ->
+      transcript_ok (fo_m3 fo1) car1 -> transcript_ok (fo_m3 fo2) car2 -> corr_orders C1 C2 car1 car2 ->
+      sort_mapping (fo_m4 fo1) = Ok ms1 -> sort_mapping (fo_m4 fo2) = Ok ms2 ->
+      returned_iso_car after_sort_key C1 C2 car1 (fo_m4 fo1) car2 (fo_m4 fo2) (fo_mol fo1) (fo_mol fo2) ms1 ms2.
+Proof.
+  unfold iso_domainb. intros H. apply andb_prop in H as [H SM]. apply andb_prop in H as [D1 D2].
+  assert (X : forall C body defs, text_domainb fo C body defs = true ->
+            wf_cut C /\ heavy_payload C /\ exists B fd, from_text fo (cut_string_of body defs) = Ok (init B [fd] true true) /\ templates_ok C fd /\ is_base C (next_meta B)).
+  { clear. intros C body defs H. unfold text_domainb, base_readb in H. apply andb_prop in H as [H H5]. apply andb_prop in H as [H H4]. apply andb_prop in H as [H H3].
+    apply andb_prop in H as [H1 H2]. apply andb_prop in H3 as [H3 Hr]. apply andb_prop in H3 as [Hne Hnb].
+    destruct (ReaderImpl.read_cgsmiles fo (block_of body)) as [B|] eqn:ER; [|discriminate Hr]. apply andb_prop in Hr as [Hb Hn].
+    assert (body <> []) as Nb by (destruct body; [discriminate Hne|discriminate]).
+    assert (defs <> []) as Nd by (destruct defs; [discriminate H4|discriminate]).
+    assert (get_node_attributes B (S "atomname") = []) as Hn' by (destruct (get_node_attributes B (S "atomname")); [reflexivity|discriminate Hn]).
+    split; [now apply wf_cutb_sound|]. split; [exact (heavy_atomsb_sound _ H2)|].
+    destruct (text_from_string_body fo C body defs B Nb (chars_lackb_sound _ _ _ Hnb (or_introl eq_refl)) ER Nd (defs_okb_sound _ _ _ H5)) as (fd & Hs & HT).
+    exists B, fd. split; [exact Hs|]. split; [exact HT|]. unfold next_meta. rewrite Hn'. now apply is_baseb_sound. }
+  destruct (X _ _ _ D1) as (W1 & P1 & B1 & fd1 & S1 & T1 & Bs1). destruct (X _ _ _ D2) as (W2 & P2 & B2 & fd2 & S2 & T2 & Bs2).
+  exists (init B1 [fd1] true true), fd1, (init B2 [fd2] true true), fd2.
+  split; [exact S1|]. split; [reflexivity|]. split; [exact S2|]. split; [reflexivity|].
+  intros car1 car2 fo1 fo2 ms1 ms2 R1 R2 K1 K2 Corr M1 M2.
+  change (resolve_step_full true true fd1 B1 (Some car1) = Ok fo1) in R1. change (resolve_step_full true true fd2 B2 (Some car2) = Ok fo2) in R2.
+  now destruct (returned_graphs_iso_any C1 C2 fd1 fd2 B1 B2 car1 car2 fo1 fo2 ms1 ms2 W1 (same_molb_sound _ _ SM) W2 P1 P2 T1 Bs1 T2 Bs2 R1 R2 K1 K2 Corr M1 M2) as (_ & _ & H).
+Qed.
+
+(** the measurement record for a pair of strings; classes: 0 the isomorphism theorem applies; 10 + k / 20 + k: class k of the
+    first / second description; 30: the two cut records are not [same_mol] *)
+Definition tdp_class (fo : float_oracle) (c : td_case * td_case) : nat :=
+  match td_class fo (fst c), td_class fo (snd c) with
+  | 0%nat, 0%nat => if same_molb (fst (fst (fst c))) (fst (fst (snd c))) then 0%nat else 30%nat
+  | 0%nat, k => (20 + k)%nat
+  | k, _ => (10 + k)%nat
+  end.
